@@ -178,7 +178,11 @@ func newC12Srv(caseNo int, role string) *c12Srv {
 }
 
 func (sv *c12Srv) cleanup() {
+	// Let a still-held notification finish BEFORE stopping: Server.Stop ->
+	// metadataAPI.Reset takes mu then consumerGroupsMu, the notification takes
+	// consumerGroupsMu then (via countStreamPartitions) mu.
 	sv.gate.release()
+	sv.quiesce()
 	sv.s.Stop() // nolint: errcheck
 	c12Gates.Delete(sv.id)
 	os.RemoveAll(sv.dir)
@@ -700,7 +704,7 @@ func TestVerifC12Fsm(t *testing.T) {
 	}
 	var holds, overtaken, checks, compared, served, absent, opsN, inline atomic.Int64
 	kit.Parallel(n, kit.Workers(), func(i int) {
-		if rep.NumViolations() >= 8 {
+		if rep.NumViolations() >= 8 || c12FailedCases.Load() >= 200 {
 			return
 		}
 		rng := kit.NewRNG(seeds[i])
@@ -709,6 +713,9 @@ func TestVerifC12Fsm(t *testing.T) {
 			r.srv[role] = newC12Srv(i, role)
 		}
 		r.run()
+		if r.failed { // x or z (quiescent); a divergence of y does not end the case
+			c12FailedCases.Add(1)
+		}
 		nontrivial := r.overtaken > 0
 		holds.Add(int64(r.holds))
 		overtaken.Add(int64(r.overtaken))
